@@ -877,6 +877,50 @@ pub fn run(ctx: &mut Ctx, dom: &str, a: &[Arg]) {
                 modules(ctx, &g, &bi);
             }
         }
+        "bigwalk" => {
+            // n copies of one padded tag between the header and the end tag (n beyond 2^16): counts and positions only
+            let (n, tag) = (a[0].n() as usize, a[1].b());
+            let l = tag.len();
+            let total = 16 + n * l;
+            let mut region = Vec::with_capacity(total);
+            region.extend_from_slice(&(total as u32).to_le_bytes());
+            region.extend_from_slice(&0u32.to_le_bytes());
+            for _ in 0..n {
+                region.extend_from_slice(tag);
+            }
+            region.extend_from_slice(&0u32.to_le_bytes());
+            region.extend_from_slice(&8u32.to_le_bytes());
+            let g = Guarded::new(&region, 0, ctx.place_end);
+            drop(region);
+            let r = guard(|| unsafe { BootInformation::load(g.ptr.cast::<BootInformationHeader>()) });
+            match r {
+                Err(()) => ctx.ln("load", "PANIC"),
+                Ok(Err(e)) => ctx.ln("load", load_err(e)),
+                Ok(Ok(bi)) => {
+                    ctx.ln("load", format!("VAL total={}", bi.total_size()));
+                    ctx.ln("tags_count", gv(|| bi.tags().count()));
+                    ctx.ln(
+                        "tags_last",
+                        match guard(|| bi.tags().last()) {
+                            Ok(Some(t)) => format!("VAL {}", view(&g, t)),
+                            Ok(None) => "VAL none".to_string(),
+                            Err(()) => "PANIC".to_string(),
+                        },
+                    );
+                    for k in [n.wrapping_sub(1), n, n + 1] {
+                        let kk = if n == 0 && k == usize::MAX { 0 } else { k };
+                        let v = match guard(|| bi.tags().nth(kk)) {
+                            Ok(Some(t)) => format!("VAL {}", view(&g, t)),
+                            Ok(None) => "VAL none".to_string(),
+                            Err(()) => "PANIC".to_string(),
+                        };
+                        ctx.ln("tags_nth", format!("{} {}", if n == 0 && k == usize::MAX { 0 } else { k }, v));
+                    }
+                    ctx.ln("modules_count", gv(|| bi.module_tags().count()));
+                    dbg_line(ctx, "boot", &bi);
+                }
+            }
+        }
         "mbihuge" => {
             // a boot information whose header declares a total size up to 4 GiB: that many (untouched, zero) bytes, the
             // given 8 bytes at its end
